@@ -59,10 +59,7 @@ def run(check: Check) -> None:
                          "literal_scalings": ["2.5", "3"], "outputs": ["pandas", "numpy"]})
     check.out_of_scope += ["sparse output (scipy.sparse cannot hold symbolic cells)", "numeric columns arriving as DataFrame columns (Series branch of the encoders) — replays use that branch",
                            "non-treatment contrasts (C11)", "more than 3 terms / 3 factors per term"]
-    tmo = 60000 if check.tier == "thorough" else 10000
-    df = mc.cat_frame()
-    n = mc.NROWS
-    recorded = 0
+    cases = []
     seen = set()
     for fam, intercept, efr, out in configs(check):
         formula = mc.render_formula(fam, intercept)
@@ -70,7 +67,21 @@ def run(check: Check) -> None:
         if ident in seen:
             continue
         seen.add(ident)
+        cases.append(([[list(t.factors), list(t.lits), t.lit_first] for t in fam], intercept, efr, out))
+    from lib.parallel import run_cases
 
+    run_cases(check, cases, _case, record_first=20)
+
+
+def _case(check: Check, case, record=False):
+    famspec, intercept, efr, out = case
+    fam = [mc.T(f, l, lf) for f, l, lf in famspec]
+    tmo = 60000 if check.tier == "thorough" else 10000
+    df = mc.cat_frame()
+    n = mc.NROWS
+    formula = mc.render_formula(fam, intercept)
+    ident = f"{formula} | efr={efr} | {out}"
+    if True:
         def fn(formula=formula, efr=efr, out=out):
             a, b = sym_ab(n)
             with symbolic_pipeline():
@@ -110,5 +121,4 @@ def run(check: Check) -> None:
 
         rig.run_sym(check, "matrix", fn, claims, replay=rep, timeout_ms=tmo, case_id=ident,
                     sample={"formula": formula, "ensure_full_rank": efr, "output": out, "data": "a,b in R^7 symbolic; A,B crossed"},
-                    record=recorded < 30)
-        recorded += 1
+                    record=record)
